@@ -219,9 +219,20 @@ fn gen_ufo(rng: &mut Rng, sh: &Shape) -> UfoSpec {
         if layers[li].glyphs.iter().any(|g| g.dup_of == Some(a) || g.dup_of == Some(b)) {
             continue;
         }
-        layers[li].glyphs[b].dup_of = Some(a);
         let f = layers[li].glyphs[a].file.clone();
-        layers[li].glyphs[b].file = f;
+        if rng.chance(1, 2) {
+            // the same file
+            layers[li].glyphs[b].dup_of = Some(a);
+            layers[li].glyphs[b].file = f;
+        } else {
+            // a file of its own whose name differs from the other one in case only (ASCII):
+            // refused as well since f6784f0
+            let swapped: String = f
+                .chars()
+                .map(|c| if c.is_ascii_lowercase() { c.to_ascii_uppercase() } else { c.to_ascii_lowercase() })
+                .collect();
+            layers[li].glyphs[b].file = if rng.chance(1, 2) { swapped } else { f.to_ascii_uppercase() };
+        }
     }
     let mut poison = vec![];
     for _ in 0..sh.poison {
